@@ -141,9 +141,10 @@ CLAIMED['C13'] = dict(
     text='Bounded symbolic model checking of the sequence functions that are noulith\'s own loop-free glue and do not call back into the evaluator: the builtin closures reverse, tail, butlast, uncons, uncons?, unsnoc, unsnoc?, second, third, '
          'only, len, enumerate, prefixes, suffixes, window, unique, frequencies, flatten, in / ∈ / not_in / ∉ / contains / ∋ / ∌ are executed on lists of 0..3 (thorough: 4) symbolic integers (every i64 value and every equality pattern '
          'between the elements; window sizes 1..3; flatten on up to 3 rows) and compared with the one-line definition of BUILTINS.md written out over the symbolic elements (first-occurrence order for unique, occurrence counts and default 0 '
-         'for frequencies, membership by ==, errors on too-short input where documented); no path panics. Functions that call back into the evaluator — map, filter, fold, group with a relation, max / min (first of tied extrema, '
-         'observed through the integer representation) — are run through the real evaluator (real registrations in a real Env) and compared, for all inputs, with their executable specification written in noulith itself (loops and lists).',
-    note='Partial: 31 of the ~60 functions the property lists. Outside: scan, sort, zip, partition, find, locate, take / drop, sum / product, ++ and friends, transpose / join / split / words / lines, '
+         'for frequencies, membership by ==, errors on too-short input where documented); no path panics. Functions that call back into the evaluator or live in structs — map, filter, fold, scan, group with a relation, '
+         'max / min (first of tied extrema, observed through the integer representation), take / drop by count, take while, count by predicate / by value, find?, flat_map, first, last — are run through the real evaluator '
+         '(real registrations in a real Env) and compared, for all inputs, with their executable specification written in noulith itself (loops and lists).',
+    note='Partial: 42 of the ~60 functions the property lists. Outside: sort, zip, ziplongest, partition, locate, drop while, sum / product / any / all, ++ and friends, transpose / join / split / words / lines, '
          'inputs other than lists of integers, longer lists. '
          'The index, ordering, key and stream parts of the property\'s mechanism list are decided under C10, C08, C09, C11; panic-freedom of the rest of the closure-registered builtins under C14.',
     design='§7 C13', technique='symbolic execution of rustc MIR of the builtin closures + SMT (z3); definitions as formulas over the symbolic elements')
